@@ -13,6 +13,13 @@ def rapid(name, pkg, run, quick, thorough, shards=16, race=False, **kw):
     return u
 
 
+def fuzz(name, pkg, run, seconds, **kw):
+    u = {"name": name, "pkg": pkg, "run": run, "kind": "fuzz", "race": False, "tiers": ["thorough"],
+         "fuzztime": {"thorough": seconds}, "shards": {"thorough": 1}, "timeout": {"thorough": seconds + 120}}
+    u.update(kw)
+    return u
+
+
 def plain(name, pkg, run, race=False, **kw):
     u = {"name": name, "pkg": pkg, "run": run, "kind": "plain", "race": race,
          "shards": {"quick": 1, "thorough": 1}}
@@ -142,6 +149,18 @@ PROPS["C09"] = {
     "technique": "property-based testing (rapid) against a reference decision; tokens generated from a valid one outwards",
     "assumptions": ["instants within 10 s of a validity boundary are not generated (real clock; JWT leeway is 5 s)",
                     "signing keys are random per run; verdicts do not depend on them"],
+}
+
+PROPS["C12"] = {
+    "units": [
+        rapid("codecs-bytes", "codecs", "TestVerif_C12_CodecsBytes", 20000, 150000),
+        fuzz("codecs-gofuzz", "codecs", "FuzzVerif_C12_Codecs", 90),
+        rapid("sdpfrag", "sdpfrag", "TestVerif_C12_SdpFrag", 3000, 20000),
+        rapid("header-parsers", "webserver", "TestVerif_C12_HeaderParsers", 5000, 40000),
+        rapid("signalling-fuzz", "rtpconn", "TestVerif_C12_SignallingFuzz", 600, 5000),
+    ],
+    "technique": "property-based testing + fuzzing (rapid byte/structure generators, native go fuzz in the thorough tier) with a no-crash / response-received oracle",
+    "assumptions": ["crashes inside pion reachable only with live DTLS/SRTP traffic are out of reach"],
 }
 
 NOT_APPLICABLE = {}
